@@ -28,6 +28,9 @@ func chunking(t *rapid.T, total, minFirst int, label string) []int {
 		c := 184
 		if !gen.Chance(t, 55, label+"_full") {
 			c = rapid.IntRange(1, 184).Draw(t, label+"_c")
+			if gen.Chance(t, 15, label+"_183") {
+				c = 183 // leaves one byte: an adaptation field reduced to its length byte
+			}
 		}
 		if first && c < minFirst {
 			c = minFirst
